@@ -165,6 +165,55 @@ def single_world(case):
     return evals, len(answers), known
 
 
+def nan_case(case):
+    """Not-a-number coordinates: an agent whose position is NaN on some axis is inside no box, and a query point with
+    a NaN coordinate has nobody inside its box (every comparison with NaN is false)."""
+    reset_library()
+    kind, dims = WORLDS[case['world']]
+    nan = float('nan')
+    model = new_model(seed=1)
+    env = model.environment = mk(model, kind, dims, case['wrap'])
+    nargs = 2 if kind == 'grid' else 3
+    normal = []
+    for i, p in enumerate(((0, 0, 0), (1, 1, 0), (3, 2, 0), (2, 1, 0))):
+        a = Core.Agent(f'n{i}', model)
+        env.add_agent(a, *p[:nargs])
+        normal.append((a, tuple(a[PC].xyz())))
+    lost = []
+    for i, axis in enumerate(range(nargs)):
+        a = Core.Agent(f'lost{i}', model)
+        p = [1, 1, 0]
+        p[axis] = nan
+        try:
+            env.add_agent(a, *p[:nargs])
+        except Exception:      # noqa - a world that refuses such a placement has no such agent: nothing to judge
+            continue
+        if env.get_agent(a.id) is a:
+            lost.append(a)
+    q = 0
+    for qp in itertools.product((-1, 0, 1, 2.5, 3), (0, 1, 2), (0,)):
+        for lw in ((0, 0, 0, 0), (1, 0, 0, 0), (0.5, 0, 2, 0), (6, 0, 0, 0), (0, 3, 3, 3)):
+            got = env.get_agents_at(qp[0], qp[1], qp[2], *lw)
+            q += 1
+            want = [a for a, p in normal if box_match(p, qp, lw, list(dims) + [0] * (3 - len(dims)), False, False)]
+            if case['wrap']:
+                # seam handling is finding F5's subject: here only the NaN agents are judged
+                if any(g in lost for g in got):
+                    raise Violation(f'query {qp} leeways {lw}: an agent with a NaN coordinate was returned',
+                                    observed=[g.id for g in got])
+            elif [g.id for g in got] != [a.id for a in want]:
+                raise Violation(f'query {qp} leeways {lw} with NaN-positioned agents present: answer differs from the '
+                                f'agents inside the box', expected=[a.id for a in want], observed=[g.id for g in got])
+    for qp in ((nan, 1, 0), (1, nan, 0), (nan, nan, 0)) + (((1, 1, nan),) if nargs == 3 else ()):
+        for lw in ((0, 0, 0, 0), (6, 0, 0, 0), (0, 9, 9, 9)):
+            got = env.get_agents_at(qp[0], qp[1], qp[2], *lw)
+            q += 1
+            if got:
+                raise Violation(f'query point {qp} (NaN coordinate) leeways {lw}: nobody is inside a box around '
+                                f'not-a-number', expected=[], observed=[g.id for g in got])
+    return q
+
+
 class Waypoint(Envs.PositionComponent):
     """A user component derived from PositionComponent (a target the agent heads for), NOT the agent's position."""
 
@@ -423,12 +472,13 @@ def run(ctx):
              for n in ((3, 70) if not full else (3, 10, 70, 150))]
     extra += [{'leg': 'crowd', 'world': 'space4x3x0', 'n': 60, 'huge': True}]
     extra += [{'leg': 'replaced_world', 'new': nw, 'via': via} for nw in ('space', 'grid') for via in ('set', 'assign')]
+    extra += [{'leg': 'nan', 'world': wn, 'wrap': wr} for wn in ('space4x3x0', 'grid4x3', 'disc4x3x2') for wr in (False, True)]
     for case in extra:
         if ctx.violations:
             break
         ctx.traces += 1
         try:
-            ctx.transitions += hbfs._guard(crowd_case if case['leg'] == 'crowd' else replaced_world_case, case)
+            ctx.transitions += hbfs._guard({'crowd': crowd_case, 'nan': nan_case}.get(case['leg'], replaced_world_case), case)
         except Violation as v:
             ctx.report(case, v)
     ctx.leg('crowd_and_replaced_world', cases=len(extra))
@@ -453,6 +503,8 @@ def replay(case):
         hbfs._guard(crowd_case, case)
     elif case['leg'] == 'replaced_world':
         hbfs._guard(replaced_world_case, case)
+    elif case['leg'] == 'nan':
+        hbfs._guard(nan_case, case)
     elif case['leg'] == 'single':
         evals, answers, known = hbfs._guard(single_world, case)
         if known is not None:
